@@ -802,6 +802,11 @@ def _make_schema_loop(schema: set[CIFSchema]) -> Loop | None:
     )
 
 
+# An unquoted CIF 1.1 string must not begin with one of these characters / reserved words.
+_RESERVED_FIRST_CHARS = ('_', '#', '$', ';', '[', ']')
+_RESERVED_WORDS = ('data_', 'save_', 'loop_', 'stop_', 'global_')
+
+
 def _quotes_for_string_value(value: str) -> str | None:
     if '\n' in value:
         return ';'
@@ -811,10 +816,14 @@ def _quotes_for_string_value(value: str) -> str | None:
         return '"'
     if '"' in value:
         return "'"
-    if ' ' in value:
+    if ' ' in value or '\t' in value:
         return "'"
     if not value:
         return "'"  # so that empty strings are shown as ''
+    if value.startswith(_RESERVED_FIRST_CHARS) or value.lower().startswith(
+        _RESERVED_WORDS
+    ):
+        return "'"  # would otherwise be read as a tag, comment, keyword, ...
     return None
 
 
